@@ -210,6 +210,153 @@ LOAD_API.update({f: 'compose' for f in POSITION_TEXT if 'key' in f and not f.end
 
 
 
+# ---------------------------------------------------------------------------------------------- customised applications
+# Everything above runs through the SHIPPED safe classes.  The library is built to be customised: registered implicit
+# resolvers (indexed by first character, and wildcard ones with first=None), path resolvers, constructors (shallow and
+# deep=True), multi-constructors, representers, multi-representers, and the full / unsafe loaders with python/tuple,
+# python/object/apply, python/object (+ __setstate__), python/object/new.  Every registered-callback path and every
+# deep-construction path is measured on growing inputs here.  The customised classes are created afresh for every
+# measurement task (class-level registries are mutable state).
+class Point:
+    def __init__(self, x, y):
+        self.x, self.y = x, y
+
+
+class Shape:
+    def __init__(self, name):
+        self.name = name
+
+
+class Circle(Shape):
+    pass
+
+
+class PObj:                       # state protocol: __getstate__ / __setstate__
+    def __init__(self, a=None):
+        self.a = a
+
+    def __getstate__(self):
+        return {'a': self.a}
+
+    def __setstate__(self, state):
+        self.a = state.get('a')
+
+
+class RObj:                       # reduce protocol
+    def __init__(self, v=0):
+        self.v = v
+
+    def __reduce__(self):
+        return (RObj, (self.v,))
+
+
+def make_app(yaml):
+    import re
+
+    class AppLoader(yaml.SafeLoader):
+        pass
+
+    class AppDumper(yaml.SafeDumper):
+        pass
+    for cls in (AppLoader, AppDumper):
+        cls.add_implicit_resolver('!version', re.compile(r'^v[0-9]+$'), ['v'])
+        cls.add_implicit_resolver('!ip', re.compile(r'^[0-9]+[.][0-9]+[.][0-9]+[.][0-9]+$'), list('0123456789'))
+        cls.add_implicit_resolver('!never', re.compile(r'^@@never@@$'), None)          # wildcard: first=None
+        cls.add_path_resolver('!pitem', ['base', None], str)
+    for tag in ('!version', '!ip', '!never', '!pitem'):
+        AppLoader.add_constructor(tag, lambda l, n: l.construct_scalar(n))
+    AppLoader.add_constructor('!deep', lambda l, n: l.construct_sequence(n, deep=True))
+    AppLoader.add_constructor('!deepmap', lambda l, n: l.construct_mapping(n, deep=True))
+    AppLoader.add_constructor('!point', lambda l, n: Point(**l.construct_mapping(n)))
+    AppLoader.add_multi_constructor('!m:', lambda l, suffix, n: (suffix, l.construct_scalar(n)))
+    AppDumper.add_representer(Point, lambda d, o: d.represent_mapping('!point', {'x': o.x, 'y': o.y}))
+    AppDumper.add_multi_representer(Shape, lambda d, o: d.represent_scalar('!m:' + type(o).__name__, o.name))
+    return AppLoader, AppDumper
+
+
+def _first_chars():
+    """every first character that owns implicit resolvers in the shipped tables and can start a plain scalar"""
+    import yaml
+    keys = yaml.SafeLoader.yaml_implicit_resolvers
+    return sorted(k for k in keys if isinstance(k, str) and len(k) == 1 and k.isprintable() and k not in ' !&*%@`')
+
+
+def _nonmatching(n):
+    chars = _first_chars()
+    return [chars[i % len(chars)] + 'x.1.z' for i in range(n)]        # starts like a typed scalar, matches no resolver
+
+
+_BASE = {'seq': lambda n: 'base: &b\n' + '  - x\n' * n, 'map': lambda n: 'base: &b\n' + _lines('  k%(i)07d: v\n', n),
+         'nested': lambda n: 'base: &b\n' + '  - [x, {y: z}]\n' * n}
+_PO = '!!python/object:harness.c20_util.PObj'
+
+
+def _deep_dag(n):
+    out = ['l0000000: &a0000000 !deep [x, x]\n']
+    for i in range(1, n):
+        out.append('l%07d: &a%07d !deep [*a%07d, *a%07d]\n' % (i, i, i - 1, i - 1))
+    return ''.join(out)
+
+
+APP_LOAD = {
+    # name -> (text(n), apis)
+    'nonmatching_scalars':     (lambda n: ''.join('- %s\n' % x for x in _nonmatching(n)), ('app_load', 'load', 'full_load')),
+    'nonmatching_scalars_flow': (lambda n: '[\n' + ''.join('  %s,\n' % x for x in _nonmatching(n)) + ']\n', ('app_load',)),
+    'nonmatching_map_values':  (lambda n: ''.join('k%07d: %s\n' % (i, x) for i, x in enumerate(_nonmatching(n))), ('app_load',)),
+    'custom_resolved_scalars': (lambda n: '- v0000001\n- 10.0.0.1\n' * (n // 2 + 1), ('app_load',)),
+    'path_resolved_items':     (lambda n: 'base:\n' + '  - x\n' * n, ('app_load',)),
+    'path_resolved_map':       (lambda n: 'base:\n' + _lines('  k%(i)07d: x\n', n), ('app_load',)),
+    'deep_seq':                (lambda n: 'd: !deep\n' + '  - [x, y]\n' * n, ('app_load',)),
+    'deep_map':                (lambda n: 'd: !deepmap\n' + _lines('  k%(i)07d: {a: b}\n', n), ('app_load',)),
+    'multi_constructed':       (lambda n: '- !m:abc x\n' * n, ('app_load',)),
+    'points':                  (lambda n: '- !point {x: 1, y: 2}\n' * n, ('app_load',)),
+    # the alias pair families reached from INSIDE a deep construction
+    'deep_alias_big_seq':      (lambda n: _BASE['seq'](n) + 'refs: !deep\n' + '  - *b\n' * n, ('app_load',)),
+    'deep_alias_big_map':      (lambda n: _BASE['map'](n) + 'refs: !deep\n' + '  - *b\n' * n, ('app_load',)),
+    'deep_alias_big_nested':   (lambda n: _BASE['nested'](n) + 'refs: !deep\n' + '  - *b\n' * n, ('app_load',)),
+    'deep_alias_big_values':   (lambda n: _BASE['seq'](n) + 'refs: !deepmap\n' + _lines('  r%(i)07d: *b\n', n), ('app_load',)),
+    'deep_alias_dag_chain':    (_deep_dag, ('app_load',)),
+    # full / unsafe loaders
+    'py_tuples':               (lambda n: '- !!python/tuple [a, b]\n' * n, ('unsafe_load', 'full_load')),
+    'py_apply':                (lambda n: '- !!python/object/apply:builtins.list [[1, 2]]\n' * n, ('unsafe_load',)),
+    'py_apply_kwds':           (lambda n: '- !!python/object/apply:builtins.dict {kwds: {a: 1}}\n' * n, ('unsafe_load',)),
+    'py_objects_setstate':     (lambda n: ('- ' + _PO + ' {a: 1}\n') * n, ('unsafe_load',)),
+    'py_objects_new':          (lambda n: '- !!python/object/new:harness.c20_util.RObj [1]\n' * n, ('unsafe_load',)),
+    'py_names':                (lambda n: '- !!python/name:builtins.len\n' * n, ('unsafe_load',)),
+    'py_apply_alias_big':      (lambda n: _BASE['seq'](n) + 'refs:\n' + '  - !!python/object/apply:builtins.len [*b]\n' * n,
+                                ('unsafe_load',)),
+    'py_setstate_alias_big':   (lambda n: _BASE['seq'](n) + 'refs:\n' + ('  - ' + _PO + ' {a: *b}\n') * n, ('unsafe_load',)),
+    'py_tuple_alias_big':      (lambda n: _BASE['seq'](n) + 'refs:\n' + '  - !!python/tuple [*b]\n' * n, ('unsafe_load', 'full_load')),
+    'py_new_alias_big':        (lambda n: _BASE['seq'](n) + 'refs:\n' + '  - !!python/object/new:harness.c20_util.RObj [*b]\n' * n,
+                                ('unsafe_load',)),
+}
+
+
+def _sharing(n):
+    big = list(range(1000000, 1000000 + n))
+    return [PObj(big) for _ in range(n)]
+
+
+APP_DUMP = {
+    # name -> (value(n), kwargs, apis)
+    'nonmatching_strs':        (_nonmatching, {}, ('app_dump', 'dump', 'unsafe_dump')),
+    'nonmatching_dict_values': (lambda n: {'k%07d' % i: x for i, x in enumerate(_nonmatching(n))}, {}, ('app_dump',)),
+    'custom_resolved_strs':    (lambda n: ['v0000001', '10.0.0.1'] * (n // 2 + 1), {}, ('app_dump',)),
+    'path_resolved_items':     (lambda n: {'base': ['x'] * n}, {}, ('app_dump',)),
+    'points':                  (lambda n: [Point(1000000 + i, 7) for i in range(n)], {}, ('app_dump',)),
+    'shapes_multi':            (lambda n: [Circle('c%07d' % i) for i in range(n)], {}, ('app_dump',)),
+    'points_shared':           (lambda n: (lambda ps: ps + ps)([Point(1000000 + i, 7) for i in range(n)]), {}, ('app_dump',)),
+    'py_tuples':               (lambda n: [(1000000 + i, 7) for i in range(n)], {}, ('unsafe_dump',)),
+    'py_objects_state':        (lambda n: [PObj(1000000 + i) for i in range(n)], {}, ('unsafe_dump',)),
+    'py_objects_reduce':       (lambda n: [RObj(1000000 + i) for i in range(n)], {}, ('unsafe_dump',)),
+    'py_objects_sharing_big':  (_sharing, {}, ('unsafe_dump',)),
+}
+# shipped families that are also run through the customised / unsafe classes
+APP_ALSO_LOAD = ('block_seq', 'block_map', 'anchors_then_aliases', 'alias_big_block_seq', 'alias_dag_chain', 'flow_seq_one_line',
+                 'double_multi_line', 'merge_large_base')
+APP_ALSO_DUMP = ('strs', 'dict_sorted', 'many_shared_objects', 'shared_big_list', 'str_plain_words', 'first_key_tuple')
+
+
 def load_apis(yaml):
     def scan(t):
         for _ in yaml.scan(t, Loader=yaml.SafeLoader):
@@ -234,8 +381,16 @@ def load_apis(yaml):
     def compose(t):
         for _ in yaml.compose_all(t, Loader=yaml.SafeLoader):
             pass
+    AppLoader, _ = make_app(yaml)
+
+    def with_loader(L):
+        def f(t):
+            for _ in yaml.load_all(t, Loader=L):
+                pass
+        return f
     return {'scan': scan, 'parse': parse, 'load': load, 'load_stream': load_stream, 'load_bytes': load_bytes,
-            'compose': compose}
+            'compose': compose, 'app_load': with_loader(AppLoader), 'unsafe_load': with_loader(yaml.UnsafeLoader),
+            'full_load': with_loader(yaml.FullLoader)}
 
 
 # ---------------------------------------------------------------------------------------------- dump families
@@ -408,8 +563,13 @@ def dump_apis(yaml):
     def serialize_text(t, kw):     # serializer + emitter fed with the node graph of a text
         nodes = list(yaml.compose_all(t, Loader=yaml.SafeLoader))
         return lambda: yaml.serialize_all(nodes, Dumper=yaml.SafeDumper, **kw)
+    _, AppDumper = make_app(yaml)
+
+    def with_dumper(D):
+        return lambda v, kw: yaml.dump(v, Dumper=D, **kw)
     return {'dump': dump, 'dump_stream': dump_stream, 'dump_all': dump_all, 'serialize': serialize, 'emit': emit,
-            'emit_text': emit_text, 'serialize_text': serialize_text}
+            'emit_text': emit_text, 'serialize_text': serialize_text, 'app_dump': with_dumper(AppDumper),
+            'unsafe_dump': with_dumper(yaml.Dumper)}
 
 
 # ---------------------------------------------------------------------------------------------- sizes
@@ -459,7 +619,7 @@ def _measure_calls(task):
     side, fam, api, target, min_n, doublings, nested_n, jitter = task
     w, err = [], []
     if side == 'load':
-        gen = LOAD[fam]
+        gen = LOAD.get(fam) or APP_LOAD[fam][0]
         fn = load_apis(yaml)[api]
         fn(gen(16))                                   # warm-up: lazy imports, regex caches
         t0 = gen(PROBE_N)
@@ -473,7 +633,7 @@ def _measure_calls(task):
         if api in ('emit_text', 'serialize_text'):
             gen, kw = TEXT_FED[fam], {}
         else:
-            gen, kw = (DUMP_ALL if api == 'dump_all' else DUMP)[fam]
+            gen, kw = ((DUMP_ALL if api == 'dump_all' else DUMP).get(fam) or APP_DUMP[fam])[:2]
         f = dump_apis(yaml)[api]
         if api in ('serialize', 'emit', 'emit_text', 'serialize_text'):
             if api == 'emit':
